@@ -877,6 +877,9 @@ def diagnostics_stage(ctx: vlib.Ctx, tmp: str) -> None:
     def neg(v: Any) -> Any:
         return (not v) if isinstance(v, bool) else []
 
+    # documented exception (config_file.rst): a per-module ignore_missing_imports is looked up under the name of the IMPORTED
+    # module, so its section names that module and the pattern / inline sources of the importing file do not apply
+    imported_target = {"ignore_missing_imports": "nonexistent_module_xyz"}
     for opt in names:
         key, val, cli, inline, src = WITNESS[opt]
         extra = ["--strict-equality"] if opt == "strict_equality_for_none" else []
@@ -887,14 +890,18 @@ def diagnostics_stage(ctx: vlib.Ctx, tmp: str) -> None:
         for kind in CFG_KINDS:
             job(opt, f"global:{kind}", (kind, {**gextra, key: val}, []), [])
             if not ctx.quick or kind == CFG_KINDS[len(opt) % 3]:
-                job(opt, f"section:{kind}", (kind, gextra, [("pkg.sub.w", {key: val})]), [])
+                job(opt, f"section:{kind}", (kind, gextra, [(imported_target.get(opt, "pkg.sub.w"), {key: val})]), [])
         pats = [("section:a.*", "mypy.ini", "pkg.*"), ("section:*.b", "mypy.ini", "*.w"), ("section:a.*.b", "pyproject.toml", "pkg.*.w")]
         for n_p, (lab, kind, pat) in enumerate(pats):
+            if opt in imported_target:
+                continue
             if not ctx.quick or n_p == len(opt) % 3:
                 job(opt, lab, (kind, gextra, [(pat, {key: val})]), [])
-        job(opt, "inline", None, extra, inline=inline)
+        if opt not in imported_target:
+            job(opt, "inline", None, extra, inline=inline)
     # precedence between conflicting sources (documented order), both polarities
     prec_opts = ["disallow_untyped_defs", "ignore_errors"] if ctx.quick else ["disallow_untyped_defs", "ignore_errors", "warn_no_return", "strict_optional", "check_untyped_defs"]
+    prec_opts = [x for x in prec_opts if x in names]
     for opt in prec_opts:
         key, val, cli, inline, src = WITNESS[opt]
         if not isinstance(val, bool):
